@@ -48,6 +48,7 @@ class Gen:
         self.slices = []         # {file, path, sha256, lines}
         self.funcs = []          # {name, impl, file, src_line, gen_start, gen_end, props, ext}
         self.dropped = []        # text of dropped statements (R4)
+        self.shared_contracts = []
         self.out_lines = []
         self.origin = []         # per generated line: (kind, ref)
 
@@ -342,13 +343,15 @@ class Gen:
         dispatch = None
         fn_attrs = []
         closures = []
+        sigsubs = []
         i = 0
         while i < len(block):
             ln = block[i]
             s = ln.strip()
-            if s.startswith('//@sub') or s.startswith('//@suball'):
+            if s.startswith('//@sub') or s.startswith('//@suball') or s.startswith('//@sigsub'):
                 many = s.startswith('//@suball')
-                rest = s[len('//@suball' if many else '//@sub'):]
+                is_sig = s.startswith('//@sigsub')
+                rest = s[len('//@suball' if many else ('//@sigsub' if is_sig else '//@sub')):]
                 # may span several lines until the closing >>> of the replacement
                 buf = rest
                 while buf.count('<<<') < 2 or buf.count('>>>') < 2:
@@ -361,7 +364,7 @@ class Gen:
                 m = re.match(r'\s*<<<(.*?)>>>\s*==>\s*<<<(.*?)>>>\s*$', buf, re.S)
                 if not m:
                     raise ExtractError('malformed //@sub in %s: %r' % (where, buf[:80]))
-                subs.append((m.group(1), m.group(2), many))
+                (sigsubs if is_sig else subs).append((m.group(1), m.group(2), many))
             elif s.startswith('//@exit'):
                 p = s[len('//@exit'):].strip().split(None, 1)
                 exits.append((p[0], p[1]))
@@ -369,6 +372,13 @@ class Gen:
                 dispatch = s[len('//@dispatch'):].strip()
             elif s.startswith('//@attr'):
                 fn_attrs.append(s[len('//@attr'):].strip())
+            elif s.startswith('//@contract'):
+                cname = s[len('//@contract'):].strip()
+                cp = os.path.join(VERIF, 'verus', 'contracts', cname)
+                if not os.path.exists(cp):
+                    raise ExtractError('contract file missing: %s' % cname)
+                contract += open(cp, encoding='utf-8').read().rstrip('\n').split('\n')
+                self.shared_contracts.append(cname)
             elif s.startswith('//@closure'):
                 closures.append(s[len('//@closure'):].strip().split())
             elif s.startswith('//@'):
@@ -376,7 +386,7 @@ class Gen:
             else:
                 contract.append(ln)
             i += 1
-        if self.vacuity and 'ext' not in kv:
+        if self.vacuity and self.vacuity == '%s::%s' % (impl, name) and 'ext' not in kv and 'assumed' not in kv:
             # vacuity twin (DESIGN §6.5): add the clause `false` to the postcondition; it must FAIL
             idx = [k for k, c in enumerate(contract) if re.match(r'\s*ensures\b', c)]
             if idx:
@@ -393,6 +403,8 @@ class Gen:
         if mut_self:
             sig2 = re.sub(r'\(\s*mut\s+self\b', '(self', sig2, count=1)
             self.bump('R12.mut_self')
+        for anchor, repl, many in sigsubs:
+            sig2 = self.apply_sub(sig2, anchor, repl, many, where + ' (signature)')
         if 'ret' in kv:
             sig2 = self.name_return(sig2, kv['ret'])
         # ---- body
@@ -438,6 +450,11 @@ class Gen:
             self.bump('R7.exit_condition', len(hits))
         docs = '\n'.join(l for l in attrs.split('\n') if l.strip().startswith('///'))
         head = ''
+        if 'assumed' in kv:
+            # contract proved in another unit (same contract file); only the signature is used here
+            head = '    #[verifier::external_body]\n'
+            body2 = '{ unimplemented!() }'
+            self.bump('assumed_contract_from_other_unit')
         if 'ext' in kv:
             head = '    #[verifier::external_body]\n'
             self.bump('R8.external_body')
@@ -451,7 +468,8 @@ class Gen:
         gen_end = len(self.out_lines)
         self.funcs.append({'name': kv.get('rename', name), 'impl': impl, 'file': rel, 'src_line': src_line,
                            'gen_start': gen_start, 'gen_end': gen_end,
-                           'props': [p for p in kv.get('props', '').split(',') if p], 'ext': 'ext' in kv,
+                           'props': [p for p in kv.get('props', '').split(',') if p], 'ext': 'ext' in kv or 'assumed' in kv,
+                           'assumed': 'assumed' in kv,
                            'contract_lines': len([c for c in contract if c.strip()])})
 
     # ---------------------------------------------------------------- driver
@@ -493,15 +511,17 @@ def parse_args(s):
         m = re.match(r'^([a-z_]+)=(.*)$', t)
         if m and len(args) >= 3:
             kv[m.group(1)] = m.group(2)
-        elif t in ('ext', 'nomacro') and len(args) >= 3:
+        elif t in ('ext', 'nomacro', 'assumed') and len(args) >= 3:
             kv[t] = '1'
         else:
             args.append(t)
     return args, kv
 
 
-def generate_vacuity(unit, outdir, repo=REPO):
-    return generate(unit, outdir, repo, vacuity=True)
+def generate_vacuity(unit, outdir, repo=REPO, fn_key=None):
+    """vacuity twin for ONE function (`impl hdr::name`): only its own postcondition gets the `false` probe, so
+    the probe cannot leak into callers through the callee's contract."""
+    return generate(unit, outdir, repo, vacuity=fn_key)
 
 
 def generate(unit, outdir, repo=REPO, vacuity=False):
@@ -509,7 +529,10 @@ def generate(unit, outdir, repo=REPO, vacuity=False):
     g = Gen(unit, repo, vacuity)
     text = g.run(tpl)
     os.makedirs(outdir, exist_ok=True)
-    out = os.path.join(outdir, unit + ('_vacuity' if vacuity else '') + '.rs')
+    tag = ''
+    if vacuity:
+        tag = '_vac_' + re.sub(r'[^A-Za-z0-9]+', '_', vacuity)
+    out = os.path.join(outdir, unit + tag + '.rs')
     open(out, 'w', encoding='utf-8').write(text)
     meta = {'unit': unit, 'file': out, 'rules': g.rules, 'slices': g.slices, 'funcs': g.funcs,
             'dropped_statements': g.dropped, 'origin': g.origin}
